@@ -4,6 +4,7 @@
 #include <rapidcheck.h>
 #include <cstdint>
 #include <cstdio>
+#include <cstdarg>
 #include <cstdlib>
 #include <cstring>
 #include <cmath>
